@@ -139,6 +139,22 @@ SPECS = {
             "the specification is an exact oracle on representable configurations, not a model of floating-point error",
         ],
     },
+    "f80": {
+        "module": "F80Trace",
+        "release": True,
+        "rule": ("I->S: + - * / (value and assigning forms) and neg on pairs from a boundary set of f64 bit patterns (signed zeros, "
+                 "subnormals, powers of two and neighbours, long carry chains, huge/tiny exponents, infinities, NaN; every third pair in "
+                 "quick, all pairs in thorough), random bit patterns and chains of 2-4 operations whose intermediate results use all 64 "
+                 "significand bits; f64 -> f80 -> f64 on boundary and random patterns; f80 -> f64 narrowing of results inside the normal f64 "
+                 "range; all nine relations (<, <=, >, >=, partial_cmp, ==, min, max, abs) on pairs of the boundary set extended with values "
+                 "that need 64 bits. Operands and results are decoded from their bytes by bit slicing; TLC checks the round-to-nearest-even "
+                 "inequality on exact BigNat integers (no division) and the IEEE case analysis. Non-trivial = every event."),
+        "assumptions": [
+            "x87 only (the crate is x86-only); precision control is the Linux default (64-bit significand)",
+            "f80 denormals / values outside the normal f64 range for narrowing are not judged (they cannot arise from 2-4 operations on f64 operands)",
+            "for min/max with a NaN operand the property is silent: either operand is accepted",
+        ],
+    },
 }
 
 
